@@ -307,8 +307,13 @@ def compare_family(db, seq_q, one_q, extras, coords, lists, it=None, dom=None, s
             kw = dict(base)
             kw[fs.params[0]] = req
             kw.update(seq_kw or {})
-            res = [q for q in it_.run(fs, kwargs=lambda: dict(kw)) if q.outcome == 'return']
+            allp = it_.run(fs, kwargs=lambda: dict(kw))
+            res = [q for q in allp if q.outcome == 'return']
             label = '%s(%s%s)' % (fs.name, orders, ''.join(', %s=%s' % kv for kv in ex.items()))
+            if not res and len(allp) == 1 and allp[0].outcome == 'raise' and not allp[0].conds and not dom_.lost:
+                # no test on the way was undecided: for these requests the routine raises, where the single-order routine returns
+                out.append((label, ['the call raises %s on its only path (every test on the way was decided by the concrete requests)' % getattr(allp[0].value, 'v', allp[0].value)]))
+                continue
             if len(res) != 1:
                 raise AnalysisError('%s: expected one returning path for concrete orders, got %d' % (label, len(res)))
             if dom_.lost:
